@@ -33,6 +33,7 @@ def run(ctx, rep):
     e12_pairing.check_adjacency(facts, rep)
     e8_formulas.check_cob_formulas(facts, rep)
     e8_formulas.check_elimination(facts, rep)
+    e8_formulas.check_pivot_eligibility(facts, rep)
     e8_formulas.check_koszul_sign(facts, rep)
     e9_relations.run(facts, rep, parts=('R1', 'R4', 'R6'))
     summ = e5_locks.Summaries(facts)
